@@ -316,7 +316,7 @@ def build_extracted(r):
 # ------------------------------------------------------------------ the check
 
 CARVE_OUTS = [
-    "numbers are integers with |x| < 2^53; complex arrays and non-integer data are outside the reference (cases whose observed result is not integer-valued are rejected by the generator and counted)",
+    "numbers are integers with |x| < 2^53; complex arrays and non-integer data are outside the reference (cases whose observed result is not integer-valued, or has more than 20000 elements, are rejected by the generator and counted)",
     "pervasive functions on box arrays, comparisons/min/max between a number and a character, multiply with characters, character arithmetic leaving [0, 0xD7FF], monadic pervasive functions on character arrays",
     "fill + pervasive/couple/join when the ranks differ, and fill + pervasive when a matched pair of axes has lengths 1 and n (repeat or pad?); equal-rank padding incl. arguments with empty rows IS compared",
     "a fill of another element type than the array counts as no fill (number and character arrays); any fill with a BOX array is left open (the implementation boxes the fill); couple/join of a box array with a non-box array",
@@ -332,7 +332,7 @@ CARVE_OUTS = [
     "memberof/indexin: searched-for array of rank lower than the rows of the searched-in array, mismatching cell shape, scalar searched-in array, different element types",
     "find: pattern of higher rank than the array, empty pattern, scalar array, different element types, any fill value set",
     "un box of a non-box or of a non-scalar box array; range/where of box arrays and of |n| > 4096; range of a vector longer than 8",
-    "resource guards of the reference: take amounts / reshape dims / keep counts beyond 64, results beyond 100000 elements",
+    "resource guards of the reference: take amounts / reshape dims / keep counts beyond 64, reshape to more than 8 axes, results beyond 100000 elements",
 ]
 
 
@@ -351,7 +351,7 @@ def run(r):
     ]
     r.assumptions += ["arrays satisfy length(data) = product(shape) (premise wf of the law theorems; C05's invariant)",
                       "numbers are integers (exactly representable doubles, |x| < 2^53); the 26 law theorems are proved of the reference for all well-formed arrays, the implementation is only sampled against it",
-                      "the law theorems with size premises (reshape_deshape: dims <= 64 and <= 100000 elements; keep_neg_scalar: count <= 64) are limited by the reference's resource guards, not by the laws",
+                      "the law theorems with size premises (reshape_deshape: dims <= 64, rank <= 8 and <= 100000 elements; keep_neg_scalar: count <= 64) are limited by the reference's resource guards, not by the laws",
                       "map keys, sortedness / boolean marks and labels of values are outside the reference (arguments are built without them; results are compared as shape + element type + data)"]
     r.coverage["carve_outs"] = CARVE_OUTS
     if not r.harness(["c08"]):
@@ -435,7 +435,7 @@ def run(r):
         "special_amounts": sum(1 for c in cases if re.search(r" (inf|ninf|frac|nan)\b", c["line"])),
         "first_primitive": dict(first_hist), "primitive_uses": dict(op_hist), "unspecified_by_first_primitive": dict(uns_hist),
         "argument_ranks": dict(rank_hist), "argument_types": dict(ty_hist), "arguments_with_empty_axis": empties,
-        "distinct_argument_shapes": len(shapes), "rejected_non_integer_results": meta[0]["rejected"] if meta else None,
+        "distinct_argument_shapes": len(shapes), "rejected_non_integer_or_oversize_results": meta[0]["rejected"] if meta else None,
         "regression_corpus_cases": meta[0].get("corpus") if meta else None,
         "engine": "vm_compute shards" if quick else "extracted OCaml (ExtrOcamlBasic only) + vm_compute sample",
     }
